@@ -19,12 +19,12 @@ from mc.snapshot import digest
 PID = 'C04'
 LEVEL = 'model_checking'
 RULE = ('pairs learners {ITML, MMC, SDML} x datasets: BFS over {3 fit variants, 4 calibrations, 12 set_threshold values} to '
-        'depth 3 (quick) / 4 (thorough), each state judged on a 60+ test-pair alphabet given as formed pairs and as '
+        'depth 3 (quick) / 6 (thorough), each state judged on a 60+ test-pair alphabet given as formed pairs and as '
         'indices; SCML / LSML: every ordered triplet / quadruplet of the 12 query points incl. all tie patterns; '
         'distinct_nontrivial = distinct (event, resulting prediction vector) / distinct (learner, tie signature) outcomes')
 ASSUMPTIONS = ['pair_distance is the ground truth for distances (bound to the exact metric by C01 / C02).',
                'AUC reference: exact pair counting with ties counted 1/2, compared within 1e-12.']
-BOUNDS = {'quick': dict(depth=3, datasets=['S3u']), 'thorough': dict(depth=4, datasets=['S3u', 'S5'])}
+BOUNDS = {'quick': dict(depth=3, datasets=['S3u']), 'thorough': dict(depth=6, datasets=['S2u', 'S3u', 'S5', 'S8'])}
 
 
 def V(site, clause, msg, triggers=(), **detail):
